@@ -23,7 +23,7 @@ correspondence only and is labelled *support*):
   (`Generated/T20alias_*.lean`, 64 programs): under every valuation of the conditions the code branches on, and
   whatever a write does to the regions it hits, the caller's objects keep their content unless in-place conversion
   was asked for, a copying conversion returns a newly allocated object, a non-copying one the very object it was given;
-* `constructors_never_write_arguments`: the same for the `__init__` of every public class (116 programs): no constructor
+* `constructors_never_write_arguments`: the same for the `__init__` and alternative constructors of every public class (139 programs): no constructor
   writes (a part of) an argument.
 -/
 namespace HdVerif.C20
@@ -384,7 +384,8 @@ private theorem table_ctor : (allCtors.all neverWritesInputs) = true := by decid
 
 /-- **constructors_never_write_arguments** (the first clause of C20 for constructors).  For every `__init__` of the package's
 public classes — `SOPClass`, `Segmentation`, `ParametricMap`, `SCImage`, the SR / KO / ANN / PR / legacy SOP classes, every
-content item, template and shared content class; 116 programs regenerated from the source — in every run (any valuation of
+content item, template and shared content class, `Volume` / `VolumeGeometry`, and the alternative constructors (`from_source_image`,
+`from_segmentation`, `from_ref_dataset`, `from_code`, `from_colors`, `from_components`, …); 139 programs regenerated from the source — in every run (any valuation of
 the conditions the constructor branches on, any effect of its writes) each argument region `r < nIn` ends with the content it
 started with: the constructor assigns to `self` and to objects it allocated, never to (a part of) what it was given.
 For constructors with more than 2^5 paths (marked `(arms merged)`, 15 of them) the arms of branches are merged (weak update at
